@@ -187,3 +187,15 @@ check("C18", "model_checking",
       "observers on the public update methods; SwarmTrace judges every event.",
       "trusted: TLC; integer lattice for positions / velocities; rank abstraction of costs",
       "TLC exhaustive model + model tables replayed + TLC trace validation of real swarm runs", "DESIGN.md 5/C18")
+
+check("C09", "model_checking",
+      "Run.tla: NSGA-II over generations with populations as bags of cost vectors (FirstGen, Step = evaluate N offspring, merge with the "
+      "parents, rank, truncate by ANY rank-respecting choice) and the eps-MOEA acceptance step; TLC checks budget N*G, constant size, "
+      "elitism (no survivor dominated by a dropped parent) and single-objective best-cost monotonicity over all offspring cost choices "
+      "(N = 2 over 8 (18) vectors, N = 3 single objective, G = 3..6), and PopAcceptOK size preservation. Real NSGA-II, eps-MOEA, OMOPSO and "
+      "SMPSO runs (N 2..12, G 1..6, 1-3 objectives, 1-4 parameters, with and without transient failures) are recorded through the "
+      "objective call log and Problem.populations(); RunTrace checks budget, tags, sizes, distinctness, the full NSGA-II step relation "
+      "(survivors from parents and offspring, rank first, by front peeling), elitism and monotonicity; pop_acceptance is executed on "
+      "sampled populations of the model's vectors with every random.choice outcome forced and judged by PopAcceptOK.",
+      "trusted: TLC; design identity = exact vector; hash-based deterministic objective; rank abstraction over the whole run",
+      "TLC exhaustive generation model + TLC trace validation of whole real runs + forced-choice acceptance table", "DESIGN.md 5/C09")
